@@ -197,7 +197,11 @@ def run(ck, F):
         unmerged = [cbb for cbb, ct, where in rec_calls if where is None and cbb not in produced]
         for cbb in unmerged:
             flows = M.result_flow(B, cbb, B.term(cbb))
-            if {k for k, _ in flows} - {"propagated", "returned", "unwrapped"}:
+            # (an error that is given context on its way out — `.map_err(|e| e.in_file(name))` — leaves the document as it is)
+            kinds = {k for k, _ in flows}
+            if any(k.startswith("mapped:") for k in kinds) and _only_error_mapped(B, B.term(cbb)["dest"]["l"]):
+                kinds = {k[len("mapped:"):] if k.startswith("mapped:") else k for k in kinds}
+            if kinds - {"propagated", "returned", "unwrapped"}:
                 ck.violation("R2", "import-result-dropped", B.term(cbb).get("sp"), f"the document read for an import is neither merged nor returned ({flows})", fn=fn)
     # ---- R3 keyed access
     allowed = ("::get", "::get_key_value", "::insert", "::contains_key", "::from", "::len", "::is_empty", "::new")
@@ -794,3 +798,22 @@ def _cleared_only_at_entry(ck, F, g, heads):
                          f"{b['path']} clears a file's processed flag when a value is dropped, i.e. outside the reset at the start of a run: during "
                          f"one run a file that was read becomes readable again, so a file imported along two paths is read (and merged) once per path", fn=b["path"])
     return n
+
+
+def _only_error_mapped(B, l, depth=0):
+    """the Result in local l is handed to mapping combinators that touch its error only (`map_err`, `inspect_err`, `or_else` is not one:
+    it can make a value)"""
+    if depth > 4:
+        return False
+    ok = True
+    for (bb, where, j, x) in M.uses_of_local(B, l):
+        if where == "stmt" and x["k"] == "assign" and x["rv"]["k"] in ("use", "ref") and not x["p"].get("proj"):
+            ok = ok and _only_error_mapped(B, x["p"]["l"], depth + 1)
+        elif where == "term" and x.get("k") == "call":
+            d = M.Body.callee_decl(x) or ""
+            if any(d.endswith(m_) for m_ in M.MAP_LIKE):
+                if not d.endswith(("Result::<T, E>::map_err", "Result::<T, E>::inspect_err")):
+                    return False
+                if not x["dest"].get("proj"):
+                    ok = ok and _only_error_mapped(B, x["dest"]["l"], depth + 1)
+    return ok
